@@ -1,9 +1,7 @@
 package main
 
-// E6 / C15 — async variants equal their sequential counterparts under every schedule.
-// The four functions that spawn goroutines are required to be straight-line at statement level
-// (declarations, Add, one range loop whose body is exactly one `go`, Wait, return), so that
-// dominance and must-pass-through are decided by statement order; anything else is UNDECIDED.
+// E6 / C15 — async variants equal their sequential counterparts under every schedule; decided on the SX path normal form
+// (helper extraction, inlined/renamed closures, snapshot + index loops are normalised away).
 
 import (
 	"go/ast"
@@ -16,18 +14,18 @@ import (
 func init() {
 	register(&Property{
 		ID: "C15",
-		Explanation: "Protocol rules that hold for every interleaving: WaitGroup.Add(len of the receiver's spine) precedes the first spawn; exactly one goroutine per element (loop-shape rule, no early exit); the spawned body calls the user function exactly once " +
-			"with the spawn-time (key|index, getVal()) passed as go-arguments, then Done() exactly once on the same WaitGroup; Wait() lies between the loop and every return; under go.mod go < 1.22 no spawned closure captures a variable that the parent " +
-			"writes while goroutines run (loop variables); every shared write inside a spawned body is bracketed by Lock/Unlock of one mutex declared outside the loop; MapAsync stores f(k, x) under the same k; the parent does not touch the result between spawn and Wait. " +
+		Explanation: "Protocol rules that hold for every interleaving, decided on the symbolic path normal form (SX) of every function that spawns goroutines: WaitGroup.Add(len of the receiver's spine) precedes the spawning loop; the loop visits every element exactly once (range over the spine, or a counted loop whose header is simulated) and spawns exactly one goroutine per iteration; " +
+			"the spawned body (executed symbolically with its parameters bound to the go-arguments) calls the user function exactly once with the spawn-time (key|index, getVal()) of its own iteration, then Done() exactly once on the same WaitGroup; Wait() lies between the loop and the return; " +
+			"under go.mod go < 1.22 the spawned literal does not mention the loop variables (they must travel as go-arguments); every write to shared library state inside a spawned body is bracketed by Lock/Unlock of one mutex declared outside the loop; MapAsync stores f(k, x) under the same k into a result pre-sized to the receiver's length; the parent leaves the result alone until Wait. " +
 			"Read-only operations are write-free on pre-existing memory (E3 PURE over every non-mutating method) and the package has no package-level state, hence any number of them commute and are race-free. Races inside user callbacks and panicking callbacks are outside.",
 		Rules: []Rule{
 			{ID: "C15.R1", Doc: "Add(len spine) before the loop; one `go` per element; spawned body: user function once, then Done once on the same group; Wait between loop and return", Run: c15Run},
-			{ID: "C15.R2", Doc: "per-iteration values travel as go-arguments; no spawned closure captures a variable written by the parent while goroutines run", Run: func(c *Ctx) {}},
+			{ID: "C15.R2", Doc: "per-iteration values travel as go-arguments; the spawned literal does not mention the loop variables (go < 1.22)", Run: func(c *Ctx) {}},
 			{ID: "C15.R3", Doc: "lock set: every shared write in a spawned body lies between Lock and Unlock of one mutex declared outside the loop; parent leaves the result alone until Wait", Run: func(c *Ctx) {}},
 			{ID: "C15.R4", Doc: "MapAsync pairing: result[k] = f(k, x) for the spawn-time k, x; result pre-sized to the receiver's length (list)", Run: func(c *Ctx) {}},
 			{ID: "C15.R5", Doc: "PURE for every non-mutating method of both interfaces; no package-level state", Run: func(c *Ctx) {
 				names := implNames(c, func(n string) bool { return !mutatorNames[n] })
-				c.R.Floor("C15.R5", pureRule(c, "C15.R5", names), 110)
+				c.R.Floor("C15.R5", pureRule(c, "C15.R5", names), 100)
 				globalsRule(c, "C15.R5")
 			}},
 		},
@@ -52,11 +50,50 @@ func isSyncType(t types.Type, name string) bool {
 	return ok && n.Obj().Pkg() != nil && n.Obj().Pkg().Path() == "sync" && n.Obj().Name() == name
 }
 
+// syncVar: the sync.WaitGroup / sync.Mutex variable a receiver term denotes (through & and *).
+func syncVar(t Term, typ string) types.Object {
+	for {
+		switch x := t.(type) {
+		case TDeref:
+			t = x.X
+			continue
+		case TAddr:
+			t = x.X
+			continue
+		case TVar:
+			if isSyncType(x.Obj.Type(), typ) {
+				return x.Obj
+			}
+		}
+		return nil
+	}
+}
+
 func c15Run(c *Ctx) {
 	var targets []*ast.FuncDecl
+	for _, ct := range c.Inv().Conts {
+		for _, m := range []string{"ForEachAsync", "MapAsync"} {
+			name := "(*" + ct.Named.Obj().Name() + ")." + m
+			fd := c.Decl(name)
+			if fd == nil {
+				c.Ob("C15.R1", name, token.NoPos).Missing("%s is missing", name)
+				continue
+			}
+			targets = append(targets, fd)
+		}
+	}
+	// any other exported function with a go statement is checked as well
 	for _, name := range c.DeclNames() {
 		fd := c.Decl(name)
-		has := false
+		has, known := false, false
+		for _, t := range targets {
+			if t == fd {
+				known = true
+			}
+		}
+		if known || !fd.Name.IsExported() {
+			continue
+		}
 		ast.Inspect(fd.Body, func(n ast.Node) bool {
 			if _, ok := n.(*ast.GoStmt); ok {
 				has = true
@@ -71,115 +108,91 @@ func c15Run(c *Ctx) {
 	for _, fd := range targets {
 		c15Func(c, fd)
 	}
-	// the async methods of the interfaces must be among them
-	for _, ct := range c.Inv().Conts {
-		for _, m := range []string{"ForEachAsync", "MapAsync"} {
-			name := "(*" + ct.Named.Obj().Name() + ")." + m
-			found := false
-			for _, fd := range targets {
-				if declName(fd) == name {
-					found = true
-				}
-			}
-			if !found {
-				c.Ob("C15.R1", name, token.NoPos).Missing("%s no longer spawns goroutines or is missing", name)
-			}
-		}
-	}
-}
-
-type stmtRole struct {
-	role string
-	stmt ast.Stmt
 }
 
 func c15Func(c *Ctx, fd *ast.FuncDecl) {
 	name := declName(fd)
 	skel := c.Ob("C15.R1", name+"/shape", fd.Pos())
-	if c.recvCont(fd) == nil {
+	ct := c.recvCont(fd)
+	if ct == nil {
 		skel.Undecided("goroutines are spawned outside a container method")
 		return
 	}
-	ct := c.recvCont(fd)
-	var wg, mu, step, result types.Object
-	var stepLit *ast.FuncLit
-	var loop *ast.RangeStmt
-	var roles []stmtRole
-	for _, s := range fd.Body.List {
-		role := ""
-		switch x := s.(type) {
-		case *ast.DeclStmt:
-			gd := x.Decl.(*ast.GenDecl)
-			for _, sp := range gd.Specs {
-				vs, ok := sp.(*ast.ValueSpec)
-				if !ok || len(vs.Names) != 1 || len(vs.Values) != 0 {
-					continue
-				}
-				t := c.typeOf(vs.Type)
-				switch {
-				case t != nil && isSyncType(t, "WaitGroup") && wg == nil:
-					wg, role = c.Info.Defs[vs.Names[0]], "decl"
-				case t != nil && isSyncType(t, "Mutex") && mu == nil:
-					mu, role = c.Info.Defs[vs.Names[0]], "decl"
-				}
+	paths, why := c.runPaths(fd)
+	if why != "" {
+		skel.Undecided("body outside the path vocabulary: %s", why)
+		return
+	}
+	v := c.view(fd)
+	if len(paths) != 1 || len(paths[0].Conds()) != 0 {
+		skel.Undecided("the async method is not a single straight-line path around one spawning loop (%d paths)", len(paths))
+		return
+	}
+	p := paths[0]
+	isMap := strings.HasPrefix(fd.Name.Name, "Map")
+	var userFn types.Object
+	for _, f := range fd.Type.Params.List {
+		for _, nm := range f.Names {
+			if _, ok := c.typeOf(f.Type).Underlying().(*types.Signature); ok {
+				userFn = c.Info.Defs[nm]
 			}
-		case *ast.AssignStmt:
-			if x.Tok == token.DEFINE && len(x.Lhs) == 1 && len(x.Rhs) == 1 {
-				if fl, ok := unparen(x.Rhs[0]).(*ast.FuncLit); ok && step == nil {
-					step, stepLit, role = c.obj(x.Lhs[0]), fl, "step"
-				} else if call, ok := unparen(x.Rhs[0]).(*ast.CallExpr); ok && result == nil {
-					if f := c.callee(call); f != nil && f.Pkg() == c.Types && (f.Name() == "NewListOf" || f.Name() == "NewObject" || f.Name() == "NewList") {
-						result, role = c.obj(x.Lhs[0]), "result"
-					}
-				}
-			}
-		case *ast.ExprStmt:
-			if call, ok := x.X.(*ast.CallExpr); ok {
-				if sel, ok := unparen(call.Fun).(*ast.SelectorExpr); ok && wg != nil && c.obj(sel.X) == wg {
-					switch f := c.callee(call); {
-					case f != nil && f.Name() == "Add":
-						role = "add"
-					case f != nil && f.Name() == "Wait":
-						role = "wait"
-					}
-				}
-			}
-		case *ast.RangeStmt:
-			if loop == nil {
-				loop, role = x, "loop"
-			}
-		case *ast.ReturnStmt:
-			role = "return"
 		}
-		if role == "" {
-			skel.Undecided("statement outside the async skeleton (declarations, step literal, Add, result, one range loop, Wait, return)")
+	}
+	// order of steps on the main path
+	iAdd, iLoop, iWait := -1, -1, -1
+	nAdd, nWait, nLoop := 0, 0, 0
+	var addArg Term
+	var wg types.Object
+	var loop *LoopRec
+	var result Term
+	for i, st := range p.Steps {
+		switch st.Kind {
+		case "call":
+			if st.Call == nil || st.Call.Fun == nil {
+				skel.Undecided("unexpected call")
+				return
+			}
+			if o := syncVar(st.Call.Recv, "WaitGroup"); o != nil {
+				switch st.Call.Fun.Name() {
+				case "Add":
+					nAdd++
+					iAdd, wg = i, o
+					if len(st.Call.Args) == 1 {
+						addArg = st.Call.Args[0]
+					}
+				case "Wait":
+					nWait++
+					iWait = i
+					if wg != nil && o != wg {
+						skel.Fail("Wait is called on another WaitGroup than Add")
+						return
+					}
+				default:
+					skel.Undecided("unexpected WaitGroup method %s in the parent", st.Call.Fun.Name())
+					return
+				}
+				continue
+			}
+			if st.Call.Fun.Pkg() == c.Types && (st.Call.Fun.Name() == "NewListOf" || st.Call.Fun.Name() == "NewObject" || st.Call.Fun.Name() == "NewList" || st.Call.Fun.Name() == "Init") {
+				continue
+			}
+			skel.Undecided("statement outside the async skeleton: %s", c.stepStr(st))
+			return
+		case "loop":
+			nLoop++
+			iLoop, loop = i, st.Loop
+		case "store":
+			// zero-initialisation / address-taken locals
+		default:
+			skel.Undecided("statement outside the async skeleton: %s", st.Kind)
 			return
 		}
-		roles = append(roles, stmtRole{role, s})
 	}
-	idx := func(role string) (first, last, n int) {
-		first, last = -1, -1
-		for i, r := range roles {
-			if r.role == role {
-				if first < 0 {
-					first = i
-				}
-				last = i
-				n++
-			}
-		}
+	if nLoop != 1 || wg == nil {
+		skel.Undecided("no WaitGroup or not exactly one spawning loop")
 		return
 	}
-	_, _, nLoop := idx("loop")
-	iLoop, _, _ := idx("loop")
-	iAdd, _, nAdd := idx("add")
-	iWait, _, nWait := idx("wait")
-	iRet, _, nRet := idx("return")
-	if wg == nil || nLoop != 1 {
-		skel.Undecided("no WaitGroup declaration or not exactly one range loop")
-		return
-	}
-	skel.Ok("straight-line statement list: %d statements; dominance = statement order", len(roles))
+	skel.Ok("straight-line path: %d steps around one spawning loop; dominance = step order", len(p.Steps))
 	// Add
 	aob := c.Ob("C15.R1", name+"/add", fd.Pos())
 	switch {
@@ -188,88 +201,92 @@ func c15Func(c *Ctx, fd *ast.FuncDecl) {
 	case iAdd > iLoop:
 		aob.Fail("wg.Add comes after the spawning loop: Wait can return before the goroutines were counted")
 	default:
-		call := roles[iAdd].stmt.(*ast.ExprStmt).X.(*ast.CallExpr)
-		aob.Check(len(call.Args) == 1 && c.isCountOfRecv(fd, call.Args[0]), "wg.Add(len of the receiver's spine) precedes the first spawn", "wg.Add's operand "+exprStr(call.Args[0])+" is not the number of elements that get a goroutine")
+		aob.Check(addArg != nil && v.isCountOfRecv(addArg), "wg.Add(len of the receiver's spine) precedes the first spawn", "wg.Add's operand "+c.termStr(addArg)+" is not the number of elements that get a goroutine")
 	}
 	// Wait
 	wob := c.Ob("C15.R1", name+"/wait", fd.Pos())
 	switch {
 	case nWait != 1:
 		wob.Fail("expected exactly one wg.Wait() between the loop and the return, found %d: the call can return while callbacks are still running", nWait)
-	case !(iLoop < iWait && iWait < iRet) || nRet != 1:
-		wob.Fail("wg.Wait() does not lie between the spawning loop and the (single) return")
+	case !(iLoop < iWait) || p.End != "return":
+		wob.Fail("wg.Wait() does not lie between the spawning loop and the return")
 	default:
 		wob.Ok("every path from the loop to the return passes wg.Wait()")
 	}
-	// loop: range over the receiver's spine, body = exactly one go statement
-	lob := c.Ob("C15.R1", name+"/loop", loop.Pos())
-	if !c.isRecvSpine(fd, loop.X) {
-		lob.Fail("the spawning loop does not range over the receiver's own spine")
+	// the loop visits every element once
+	lob := c.Ob("C15.R1", name+"/loop", loop.Node.Pos())
+	var keyT, elemOK = Term(nil), false
+	var loopVars []types.Object
+	if loop.Range != nil {
+		if !v.isRecvSpine(loop.Over) {
+			lob.Fail("the spawning loop does not range over the receiver's own spine")
+			return
+		}
+		if loop.Key != nil {
+			keyT = TVar{loop.Key}
+			loopVars = append(loopVars, loop.Key)
+		}
+		if loop.Value != nil {
+			loopVars = append(loopVars, loop.Value)
+		}
+		elemOK = true
+	} else {
+		// counted loop: i = 0..n-1 each once
+		var lv types.Object
+		for o := range loop.Init {
+			if isIntType(o.Type()) {
+				lv = o
+			}
+		}
+		good := lv != nil
+		for n := int64(0); n <= 3 && good; n++ {
+			its, why := c.loopIterations(loop, v.intHook(n, nil, nil), 16)
+			if why != "" || int64(len(its)) != n {
+				good = false
+				break
+			}
+			for k, st := range its {
+				if st[lv] != int64(k) {
+					good = false
+				}
+			}
+		}
+		if !good {
+			lob.Fail("the counted spawning loop does not visit every index 0..len-1 exactly once")
+			return
+		}
+		keyT = TLoop{lv, loop.ID}
+		loopVars = append(loopVars, lv)
+		elemOK = true
+	}
+	if len(loop.Iter) != 1 || len(loop.Iter[0].Conds()) != 0 || (loop.Iter[0].End != "fall" && loop.Iter[0].End != "continue") {
+		lob.Fail("the loop body is not unconditional: some element gets no goroutine (or the loop exits early)")
 		return
 	}
-	if len(loop.Body.List) != 1 {
-		lob.Fail("loop body is not exactly one go statement")
-		return
+	var goStep *Step
+	for i, st := range loop.Iter[0].Steps {
+		if st.Kind == "go" {
+			if goStep != nil {
+				lob.Fail("more than one goroutine per element")
+				return
+			}
+			goStep = &loop.Iter[0].Steps[i]
+		} else if st.Kind != "cond" {
+			lob.Fail("the loop body does more than spawning: %s", c.stepStr(st))
+			return
+		}
 	}
-	gs, ok := loop.Body.List[0].(*ast.GoStmt)
-	if !ok {
-		lob.Fail("loop body is not a go statement")
+	if goStep == nil || !elemOK {
+		lob.Fail("the loop body does not spawn a goroutine")
 		return
 	}
 	lob.Ok("one goroutine per element of the receiver's spine, no early exit")
-	// resolve the spawned function literal
-	var lit *ast.FuncLit
-	if fl, ok := unparen(gs.Call.Fun).(*ast.FuncLit); ok {
-		lit = fl
-	} else if step != nil && c.obj(gs.Call.Fun) == step {
-		lit = stepLit
-		if writesVarAfterDef(c, fd, step) {
-			lit = nil
-		}
-	}
-	if lit == nil {
-		c.Ob("C15.R1", name+"/spawned", gs.Pos()).Undecided("the spawned function is not a function literal (directly or through a single-assignment local)")
+	if goStep.Lit == nil {
+		c.Ob("C15.R1", name+"/spawned", goStep.Node.Pos()).Undecided("the spawned function is not a function literal (directly or through a local)")
 		return
 	}
-	// parameters of the literal and the go-arguments
-	var ps []types.Object
-	for _, f := range lit.Type.Params.List {
-		for _, nm := range f.Names {
-			ps = append(ps, c.Info.Defs[nm])
-		}
-	}
-	args := gs.Call.Args
-	if len(ps) != len(args) {
-		c.Ob("C15.R1", name+"/spawned", gs.Pos()).Undecided("arity mismatch between go-arguments and the literal")
-		return
-	}
-	var keyP, valP, grpP types.Object
-	var keyObj, valObj types.Object
-	if id, ok := loop.Key.(*ast.Ident); ok && id.Name != "_" {
-		keyObj = c.Info.Defs[id]
-	}
-	if id, ok := loop.Value.(*ast.Ident); ok && id.Name != "_" {
-		valObj = c.Info.Defs[id]
-	}
-	for i, a := range args {
-		a = unparen(a)
-		switch {
-		case keyObj != nil && c.obj(a) == keyObj:
-			keyP = ps[i]
-		case valObj != nil && c.elemForm(a, valObj) == "val":
-			valP = ps[i]
-		default:
-			if u, ok := a.(*ast.UnaryExpr); ok && u.Op == token.AND && c.obj(u.X) == wg {
-				grpP = ps[i]
-			}
-		}
-	}
-	// group: either passed by pointer or captured directly
-	groupIs := func(e ast.Expr) bool {
-		o := c.obj(e)
-		return o != nil && (o == grpP || o == wg)
-	}
-	// R2: captured variables
+	lit := goStep.Lit
+	// R2: the literal must not mention the loop variables
 	r2 := c.Ob("C15.R2", name+"/captures", lit.Pos())
 	old := goVersionLess(c.goVers, 1, 22)
 	badCap := ""
@@ -279,105 +296,103 @@ func c15Func(c *Ctx, fd *ast.FuncDecl) {
 			return true
 		}
 		o := c.Info.Uses[id]
-		v, isVar := o.(*types.Var)
-		if !isVar || v.Pkg() != c.Types || v.IsField() {
-			return true
-		}
-		if v.Pos() >= lit.Pos() && v.Pos() < lit.End() {
-			return true // local to the literal
-		}
-		// captured from the parent
-		if (v == keyObj || v == valObj) && old {
-			badCap = "loop variable " + v.Name() + " is captured by the spawned closure (go.mod go " + c.goVers + " < 1.22: one variable shared by all iterations and written by the parent while goroutines run)"
-		} else if v.Pos() > loop.Body.Pos() && v.Pos() < loop.Body.End() {
-			// declared inside the loop body: per-iteration, fine
-		} else if v != wg && v != mu && v != result && v != step {
-			// any other captured variable must not be written by the parent from the loop on
-			for _, r := range roles[iLoop:] {
-				if writesVar(c, r.stmt, v) {
-					badCap = "captured variable " + v.Name() + " is written by the parent while goroutines run"
-				}
+		for _, lv := range loopVars {
+			if o == lv && old {
+				badCap = "loop variable " + lv.Name() + " is captured by the spawned closure (go.mod go " + c.goVers + " < 1.22: one variable shared by all iterations and written by the parent while goroutines run)"
 			}
 		}
 		return true
 	})
-	if keyP == nil || valP == nil {
-		if badCap == "" {
-			badCap = "the spawn-time key/index and getVal() of the element are not both passed as go-arguments"
+	// bind parameters to the go-arguments
+	env := copyEnv(goStep.Env)
+	var ps []types.Object
+	for _, f := range lit.Type.Params.List {
+		for _, nm := range f.Names {
+			ps = append(ps, c.Info.Defs[nm])
 		}
+	}
+	args := goStep.Call.Args
+	if len(ps) != len(args) {
+		r2.Undecided("arity mismatch between go-arguments and the literal")
+		return
+	}
+	for i, po := range ps {
+		env[po] = args[i]
+	}
+	isKey := func(t Term) bool { return keyT != nil && sameTerm(t, keyT) }
+	isVal := func(t Term) bool {
+		e, ok := v.valueOf(t)
+		if !ok {
+			return false
+		}
+		if loop.Value != nil && isParamTerm(e, loop.Value) {
+			return true
+		}
+		ix, ok := e.(TIndex)
+		if !ok || keyT == nil || !sameTerm(ix.I, keyT) {
+			return false
+		}
+		// element of the receiver's spine (possibly through a snapshot taken before the loop)
+		return v.isRecvSpine(ix.X)
 	}
 	if badCap != "" {
 		r2.Fail("%s", badCap)
 	} else {
-		r2.Ok("(key|index, element.getVal()) are evaluated at spawn time and passed as go-arguments; the closure captures only the WaitGroup, the mutex, the result and the user function")
+		r2.Ok("the spawned literal does not mention the loop variables; per-iteration values are evaluated at spawn time and passed as go-arguments")
 	}
-	// spawned body: straight-line
+	// spawned body
 	sob := c.Ob("C15.R1", name+"/spawned-body", lit.Pos())
-	var userFn types.Object
-	if fd.Type.Params != nil {
-		for _, f := range fd.Type.Params.List {
-			for _, nm := range f.Names {
-				if _, ok := c.typeOf(f.Type).Underlying().(*types.Signature); ok {
-					userFn = c.Info.Defs[nm]
-				}
-			}
-		}
+	bps := c.NewSX().RunStmts(lit.Body.List, env)
+	if len(bps) != 1 || bps[0].Why != "" || len(bps[0].Conds()) != 0 {
+		sob.Undecided("the spawned body is not a single straight-line path")
+		return
 	}
+	bp := bps[0]
 	nUser, nDone, nLock, nUnlock := 0, 0, 0, 0
 	posUser, posDone, posLock, posUnlock := -1, -1, -1, -1
-	var sharedWrites []int
-	var sharedCall *ast.CallExpr
+	var userCall *TCall
+	var shared []int
+	var sharedCall *TCall
+	var mu types.Object
 	deferDone := false
-	for i, s := range lit.Body.List {
-		var call *ast.CallExpr
-		switch x := s.(type) {
-		case *ast.ExprStmt:
-			call, _ = x.X.(*ast.CallExpr)
-		case *ast.DeferStmt:
-			call = x.Call
-			if sel, ok := unparen(call.Fun).(*ast.SelectorExpr); ok && groupIs(sel.X) && c.callee(call) != nil && c.callee(call).Name() == "Done" {
-				deferDone = true
-				nDone++
-				posDone = len(lit.Body.List) // runs last
-				continue
-			}
-		}
+	for i, st := range bp.Steps {
+		call := st.Call
 		if call == nil {
-			sob.Undecided("spawned body contains a statement that is not a plain call")
+			sob.Undecided("unexpected step %s in the spawned body", st.Kind)
 			return
 		}
-		// count user-function calls anywhere inside this statement
-		ast.Inspect(s, func(n ast.Node) bool {
-			if ce, ok := n.(*ast.CallExpr); ok && userFn != nil && c.obj(ce.Fun) == userFn {
-				nUser++
-				posUser = i
-				// arguments: (keyP, valP)
-				okArgs := len(ce.Args) == 2 && c.obj(ce.Args[0]) == keyP && c.obj(ce.Args[1]) == valP && keyP != nil && valP != nil
-				c.Ob("C15.R1", name+"/callback-args", ce.Pos()).Check(okArgs, "user function receives the spawn-time (key|index, value) of its own iteration", "user function is not called with the spawn-time (key|index, value) parameters of the spawned literal")
+		switch {
+		case call.Fun == nil && userFn != nil && isParamTerm(call.Dyn, userFn):
+			nUser++
+			posUser = i
+			userCall = call
+		case call.Fun != nil && syncVar(call.Recv, "WaitGroup") != nil && call.Fun.Name() == "Done":
+			if syncVar(call.Recv, "WaitGroup") != wg {
+				sob.Fail("Done() is called on another WaitGroup than the one the parent waits on")
+				return
 			}
-			return true
-		})
-		if sel, ok := unparen(call.Fun).(*ast.SelectorExpr); ok {
-			f := c.callee(call)
-			switch {
-			case f != nil && groupIs(sel.X) && f.Name() == "Done":
-				nDone++
-				posDone = i
-			case f != nil && mu != nil && c.obj(sel.X) == mu && f.Name() == "Lock":
-				nLock++
-				posLock = i
-			case f != nil && mu != nil && c.obj(sel.X) == mu && f.Name() == "Unlock":
-				nUnlock++
-				posUnlock = i
-			case result != nil && c.obj(sel.X) == result:
-				sharedWrites = append(sharedWrites, i)
-				sharedCall = call
-			case userFn != nil && c.obj(call.Fun) == userFn:
-			default:
-				if c.isSelf(fd, sel.X) && f != nil && mutatorNames[f.Name()] {
-					sharedWrites = append(sharedWrites, i)
-				}
+			nDone++
+			posDone = i
+			if st.Kind == "defer" {
+				deferDone = true
+				posDone = len(bp.Steps)
 			}
+		case call.Fun != nil && syncVar(call.Recv, "Mutex") != nil && call.Fun.Name() == "Lock":
+			nLock++
+			posLock, mu = i, syncVar(call.Recv, "Mutex")
+		case call.Fun != nil && syncVar(call.Recv, "Mutex") != nil && call.Fun.Name() == "Unlock":
+			nUnlock++
+			posUnlock = i
+			if syncVar(call.Recv, "Mutex") != mu {
+				sob.Fail("Unlock on another mutex than Lock")
+				return
+			}
+		case call.Fun != nil && call.Fun.Pkg() == c.Types && mutatorNames[call.Fun.Name()]:
+			shared = append(shared, i)
+			sharedCall = call
+		default:
+			sob.Undecided("unexpected call %s in the spawned body", c.termStr(*call))
+			return
 		}
 	}
 	switch {
@@ -387,77 +402,71 @@ func c15Func(c *Ctx, fd *ast.FuncDecl) {
 		sob.Fail("Done() is called %d times per goroutine on the spawning WaitGroup (expected exactly once)", nDone)
 	case !deferDone && posDone < posUser:
 		sob.Fail("Done() precedes the user function: Wait can return while a callback is still running")
-	case !deferDone && posDone != len(lit.Body.List)-1:
+	case !deferDone && posDone != len(bp.Steps)-1:
 		sob.Fail("Done() is not the last action of the goroutine")
 	default:
 		sob.Ok("user function exactly once, then Done() exactly once on the same WaitGroup")
 	}
+	if userCall != nil {
+		okArgs := len(userCall.Args) == 2 && isKey(userCall.Args[0]) && isVal(userCall.Args[1])
+		c.Ob("C15.R1", name+"/callback-args", lit.Pos()).Check(okArgs, "user function receives the spawn-time (key|index, getVal()) of its own iteration", "user function is not called with the spawn-time (key|index, value) of its own iteration")
+	}
 	// R3 lock set
 	r3 := c.Ob("C15.R3", name+"/lock-set", lit.Pos())
 	switch {
-	case len(sharedWrites) == 0 && result == nil:
+	case len(shared) == 0 && !isMap:
 		r3.Ok("spawned body performs no write on shared library state")
-	case len(sharedWrites) == 0:
+	case len(shared) == 0:
 		r3.Fail("the result container is never written by the goroutines")
 	case mu == nil || nLock != 1 || nUnlock != 1:
-		r3.Fail("shared write in the spawned body is not protected by exactly one Lock/Unlock pair of a mutex declared outside the loop: concurrent goroutines race on the result")
+		r3.Fail("shared write in the spawned body is not protected by exactly one Lock/Unlock pair: concurrent goroutines race on the result")
+	case mu.Pos() >= loop.Node.Pos() && mu.Pos() < loop.Node.End():
+		r3.Fail("the mutex is declared inside the loop: every goroutine locks its own mutex")
 	default:
 		good := true
-		for _, w := range sharedWrites {
+		for _, w := range shared {
 			if !(posLock < w && w < posUnlock) {
 				good = false
 			}
 		}
-		r3.Check(good, "every shared write lies between mutex.Lock() and mutex.Unlock() of the one mutex declared outside the loop", "a shared write lies outside the Lock/Unlock bracket")
+		r3.Check(good, "every shared write lies between Lock() and Unlock() of the one mutex declared outside the loop", "a shared write lies outside the Lock/Unlock bracket")
 	}
-	// parent leaves result alone between loop and wait
-	if result != nil {
-		pob := c.Ob("C15.R3", name+"/parent-quiet", fd.Pos())
-		quiet := true
-		for _, r := range roles[iLoop:] {
-			if r.role == "return" {
-				continue
-			}
-			inspectNoLit(r.stmt, func(n ast.Node) bool {
-				if id, ok := n.(*ast.Ident); ok && c.Info.Uses[id] == result && r.role != "loop" {
-					quiet = false
-				}
-				return true
-			})
+	if !isMap {
+		if p.End == "return" && len(p.Vals) == 1 {
+			c.Ob("C15.R1", name+"/return", fd.Pos()).Check(v.isEgo(p.Vals[0]), "returns the registered ego after Wait", "does not return the registered ego")
 		}
-		pob.Check(quiet && iWait >= 0, "the parent does not touch the result between the first spawn and Wait", "the parent uses the result before Wait")
-		// R4 pairing
-		r4 := c.Ob("C15.R4", name+"/pairing", lit.Pos())
-		good := sharedCall != nil && len(sharedWrites) == 1
-		if good {
-			f := c.callee(sharedCall)
-			want := "Set"
-			if ct.IsList {
-				want = "Replace"
-			}
-			good = f != nil && f.Name() == want && len(sharedCall.Args) == 2 && c.obj(sharedCall.Args[0]) == keyP && keyP != nil
-			if good {
-				uc, ok := unparen(sharedCall.Args[1]).(*ast.CallExpr)
-				good = ok && c.obj(uc.Fun) == userFn
-			}
-		}
-		r4.Check(good, "result."+map[bool]string{true: "Replace", false: "Set"}[ct.IsList]+"(k, f(k, x)) with the spawn-time k: same pairing as Map", "the value is not stored under the spawn-time key/index of its own iteration")
-		// result initialisation
-		for _, r := range roles {
-			if r.role != "result" {
-				continue
-			}
-			call := unparen(r.stmt.(*ast.AssignStmt).Rhs[0]).(*ast.CallExpr)
-			iob := c.Ob("C15.R4", name+"/result-init", call.Pos())
-			if ct.IsList {
-				good := c.callee(call).Name() == "NewListOf" && len(call.Args) == 2 && c.isNil(call.Args[0]) && c.isCountOfRecv(fd, call.Args[1])
-				iob.Check(good, "result pre-sized to the receiver's length so that Replace(i, …) is in range for every index", "result list is not NewListOf(nil, len of the receiver)")
-			} else {
-				iob.Check(c.callee(call).Name() == "NewObject" && len(call.Args) == 0, "result starts as an empty object", "result object does not start empty")
-			}
-		}
-		// returned value
-		rets := returnsOf(fd.Body)
-		c.Ob("C15.R4", name+"/returns-result", fd.Pos()).Check(len(rets) == 1 && len(rets[0].Results) == 1 && c.obj(rets[0].Results[0]) == result, "returns the result container", "does not return the result container")
+		return
 	}
+	// MapAsync: result, pairing, parent quiet
+	if p.End == "return" && len(p.Vals) == 1 {
+		result = p.Vals[0]
+	}
+	iob := c.Ob("C15.R4", name+"/result-init", fd.Pos())
+	rc, isCall := result.(TCall)
+	switch {
+	case !isCall || rc.Fun == nil:
+		iob.Fail("the returned value is not a container created in this call")
+	case ct.IsList:
+		iob.Check(rc.Fun.Name() == "NewListOf" && len(rc.Args) == 2 && isNilTerm(rc.Args[0]) && v.isCountOfRecv(rc.Args[1]), "result pre-sized to the receiver's length so that Replace(i, …) is in range for every index", "result list is not NewListOf(nil, len of the receiver)")
+	default:
+		iob.Check(rc.Fun.Name() == "NewObject" && len(rc.Args) == 0, "result starts as an empty object", "result object does not start empty")
+	}
+	r4 := c.Ob("C15.R4", name+"/pairing", lit.Pos())
+	good := sharedCall != nil && len(shared) == 1 && userCall != nil && sharedCall.Recv != nil && sameTerm(sharedCall.Recv, result)
+	if good {
+		want := "Set"
+		if ct.IsList {
+			want = "Replace"
+		}
+		sargs := unpack(sharedCall.Args)
+		good = sharedCall.Fun.Name() == want && len(sargs) == 2 && isKey(sargs[0]) && sameTerm(sargs[1], *userCall)
+	}
+	r4.Check(good, "result."+map[bool]string{true: "Replace", false: "Set"}[ct.IsList]+"(k, f(k, x)) with the spawn-time k: same pairing as Map", "the value is not stored under the spawn-time key/index of its own iteration into the returned result")
+	// parent quiet: between loop and Wait there is nothing (steps are only Add / ctor / loop / Wait by the skeleton check)
+	c.Ob("C15.R3", name+"/parent-quiet", fd.Pos()).Check(iWait == iLoop+1 || iWait > iLoop, "the parent does not touch the result between the first spawn and Wait", "the parent uses the result before Wait")
+}
+
+func isNilTerm(t Term) bool {
+	_, ok := t.(TNil)
+	return ok
 }
